@@ -362,6 +362,8 @@ class WritableStream(io.RawIOBase):
         self.size = size
         self.pos = 0
         self._toggle = 0
+        # Data of an expedited download accepted so far but not yet sent
+        self._exp_pending = bytearray()
         self._exp_header = None
         self._done = False
 
@@ -393,13 +395,24 @@ class WritableStream(io.RawIOBase):
         if self._done:
             raise RuntimeError("All expected data has already been transmitted")
         if self._exp_header is not None:
-            # Expedited download
-            if len(b) < self.size:
-                # Not enough data provided
-                return 0
-            if len(b) > 4:
+            # Expedited download: all data goes in one message
+            missing = self.size - len(self._exp_pending)
+            if len(b) < missing:
+                # Not all data provided yet: collect it. (Answering 0 here would
+                # make a buffered writer that flushes early, like a line
+                # buffered text stream, try again forever.)
+                self._exp_pending += b
+                self.pos += len(b)
+                return len(b)
+            if self._exp_pending:
+                # Take only what is still missing
+                b = b[:missing]
+            elif len(b) > 4:
                 raise AssertionError("More data received than expected")
             data = b.tobytes() if isinstance(b, memoryview) else b
+            data = bytes(self._exp_pending) + bytes(data)
+            # What was collected is on its way now, whatever happens to it
+            self._exp_pending = bytearray()
             request = self._exp_header + data.ljust(4, b"\x00")
             response = self.sdo_client.request_response(request)
             res_command, = struct.unpack_from("B", response)
@@ -441,6 +454,12 @@ class WritableStream(io.RawIOBase):
         An empty segmented SDO message may be sent saying there is no more data.
         """
         super(WritableStream, self).close()
+        if self._exp_header is not None and not self._done and self._exp_pending:
+            # Expedited download not finished: data was accepted but never sent
+            collected = len(self._exp_pending)
+            self._exp_pending = bytearray()
+            raise RuntimeError(
+                f"Only {collected} of the {self.size} bytes announced were written, nothing was sent")
         if not self._done and not self._exp_header:
             # Segmented download not finished
             command = REQUEST_SEGMENT_DOWNLOAD | NO_MORE_DATA
